@@ -107,9 +107,10 @@ type httpObs struct {
 }
 
 type socksObs struct {
-	Atyp string `json:"atyp"` // ipv4 | domain | ipv6
-	Host string `json:"host"`
-	Port int    `json:"port"`
+	Atyp       string `json:"atyp"` // ipv4 | domain | ipv6
+	Host       string `json:"host"`
+	Port       int    `json:"port"`
+	RemotePort int    `json:"remote_port,omitempty"` // source port of the connection that carried the request
 }
 
 type bootObs struct {
@@ -163,7 +164,8 @@ type caseRes struct {
 	conns   map[net.Conn]struct{}
 	closed  bool
 
-	bootOwner  *caseRes // sibling whose bootstrap server this case shares (nil: own server)
+	bootOwner  *caseRes  // sibling whose bootstrap server this case shares (nil: own server)
+	grp        *groupRes // forward group: owner of the plugin-global proxy / bootstrap server
 	socksAddr  string
 	bootAddr   string
 	listenErr  string
@@ -282,9 +284,25 @@ func (cr *caseRes) open() {
 		go func() { _ = srv.Serve(feed) }()
 		cr.closers = append(cr.closers, func() { _ = srv.Close(); feed.Close() })
 	}
-	cr.openBootstrap()
-	if c.Via == "socks5" {
+	switch c.BootOpt {
+	case "none":
+	case "global":
+		cr.bootAddr = cr.grp.bootAddr
+	default:
+		cr.openBootstrap()
+	}
+	switch {
+	case c.Socks5Opt == "global":
+		cr.socksAddr = cr.grp.socksAddr
+		if c.Via == "socks5" {
+			cr.listening = cr.socksAddr != ""
+		}
+	case c.Via == "socks5" || c.Socks5Opt == "own":
+		// also for schemes that are documented to ignore the option: the proxy is
+		// then a decoy that records whatever reaches it
 		cr.openSocks()
+	}
+	if c.Via == "socks5" {
 		return
 	}
 	if !cr.exp.Reachable {
@@ -345,7 +363,8 @@ func (cr *caseRes) answer(q []byte, truncated bool) []byte {
 		return nil
 	}
 	want := buildQuery(cr.c.ID)
-	if len(q) == len(want) && string(q[12:]) == string(want[12:]) {
+	// (a query that went through the forward plugin carries an OPT record behind the question)
+	if len(q) >= len(want) && string(q[12:len(want)]) == string(want[12:]) {
 		cr.note(func(o *Obs) { o.DNSQueries++ })
 	}
 	r := append([]byte(nil), q...)
@@ -645,7 +664,9 @@ func (cr *caseRes) openSocks() {
 		return
 	}
 	cr.socksAddr = ln.Addr().String()
-	cr.listening = true
+	if cr.c.Via == "socks5" {
+		cr.listening = true
+	}
 	cr.closers = append(cr.closers, func() { ln.Close() })
 	go func() {
 		for {
@@ -659,6 +680,20 @@ func (cr *caseRes) openSocks() {
 }
 
 func (cr *caseRes) serveSocks(c net.Conn) {
+	so, ok := readSocksRequest(c)
+	if !ok {
+		return
+	}
+	so.RemotePort = addrPort(c.RemoteAddr())
+	cr.note(func(o *Obs) { o.Socks = append(o.Socks, so) })
+	if _, err := c.Write([]byte{5, 0, 0, 1, 0, 0, 0, 0, 0, 0}); err != nil {
+		return
+	}
+	cr.serveTCPConn(c, cr.newConn("tcp", addrPort(c.RemoteAddr()), "socks5"))
+}
+
+// readSocksRequest performs the method negotiation and reads the CONNECT request.
+func readSocksRequest(c net.Conn) (so socksObs, ok bool) {
 	var h [2]byte
 	if _, err := io.ReadFull(c, h[:]); err != nil || h[0] != 5 {
 		return
@@ -674,7 +709,6 @@ func (cr *caseRes) serveSocks(c net.Conn) {
 	if _, err := io.ReadFull(c, rq[:]); err != nil || rq[0] != 5 || rq[1] != 1 {
 		return
 	}
-	var so socksObs
 	switch rq[3] {
 	case 1:
 		var a [4]byte
@@ -706,11 +740,7 @@ func (cr *caseRes) serveSocks(c net.Conn) {
 		return
 	}
 	so.Port = int(binary.BigEndian.Uint16(p[:]))
-	cr.note(func(o *Obs) { o.Socks = append(o.Socks, so) })
-	if _, err := c.Write([]byte{5, 0, 0, 1, 0, 0, 0, 0, 0, 0}); err != nil {
-		return
-	}
-	cr.serveTCPConn(c, cr.newConn("tcp", addrPort(c.RemoteAddr()), "socks5"))
+	return so, true
 }
 
 // ---------------------------------------------------------------------------
